@@ -1,7 +1,7 @@
 (** Statements of the C09 property theorems, pinned: weakening one breaks this file. *)
 From Coq Require Import ZArith List Bool Reals Permutation Sorted.
 From Flocq Require Import IEEE754.BinarySingleNaN IEEE754.Binary IEEE754.Bits Core.
-From JrV Require Import Gen.GenConsts Gen.GenNum C09.Model C09.Proofs C09.Properties.
+From JrV Require Import Gen.GenConsts Gen.GenNum C09.Model C09.Proofs C09.ProofsSet C09.Properties.
 Import ListNotations.
 Open Scope Z_scope.
 
@@ -25,35 +25,32 @@ Check C09_no_nonfinite_observable :
   finite r = true.
 Check C09_trichotomy :
   forall a b, finite a = true -> finite b = true ->
-  exactly_one (lt_impl a b) (eq_spec a b) (gt_impl a b) /\
-  le_impl a b = (lt_impl a b || eq_spec a b) /\
-  ge_impl a b = (gt_impl a b || eq_spec a b) /\
+  exactly_one (lt_impl a b) (eq_impl a b) (gt_impl a b) /\
+  le_impl a b = (lt_impl a b || eq_impl a b) /\
+  ge_impl a b = (gt_impl a b || eq_impl a b) /\
   gt_impl a b = lt_impl b a /\
-  eq_spec a b = eq_spec b a.
-Check C09_trichotomy_refuted :
-  num_eq_epsilon = true ->
-  exists a b, finite a = true /\ finite b = true /\ eq_impl a b = true /\ lt_impl a b = true.
-Check C09_eq_epsilon_not_transitive :
-  exists a b c, finite a = true /\ finite b = true /\ finite c = true /\
-    eq_eps a b = true /\ eq_eps b c = true /\ eq_eps a c = false.
-Check C09_eq_outside_known :
+  eq_impl a b = eq_impl b a.
+Check C09_eq_is_ieee :
   forall a b, finite a = true -> finite b = true ->
-  known_eps a b = false -> eq_impl a b = eq_spec a b.
+  eq_impl a b = eq_spec a b /\ (eq_impl a b = true <-> B2R64 a = B2R64 b).
+Check C09_eq_equivalence :
+  (forall a, finite a = true -> eq_impl a a = true) /\
+  (forall a b, finite a = true -> finite b = true -> eq_impl a b = true -> eq_impl b a = true) /\
+  (forall a b c, finite a = true -> finite b = true -> finite c = true ->
+     eq_impl a b = true -> eq_impl b c = true -> eq_impl a c = true).
 Check C09_sort_sorted :
   forall l, Forall (fun y => finite y = true) l ->
   Sorted lef (sort_impl l) /\ Forall (fun y => finite y = true) (sort_impl l).
 Check C09_sort_permutation : forall l, Permutation (sort_impl l) l.
-Check C09_set_outside_known :
-  forall l, Forall (fun y => finite y = true) l ->
-  (forall a b, In a l -> In b l -> known_eps a b = false) ->
-  uniq_impl l = uniq_spec l /\ set_impl l = set_spec l.
-Check C09_sort_set_coherent_refuted :
-  num_eq_epsilon = true ->
-  exists l x, Forall (fun y => finite y = true) l /\ In x l /\
-              set_member_impl x (set_impl l) = Some false /\ set_member_impl x (set_spec l) = Some true.
-Check C09_set_member_sound_partial :
-  forall x l fuel low high,
-  bsearch fuel x l low high = Some true -> exists y, In y l /\ cmp y x = Eq.
+Check C09_set_is_spec :
+  forall l, uniq_impl l = uniq_spec l /\ set_impl l = set_spec l.
+Check C09_sort_set_coherent :
+  forall l x, Forall (fun y => finite y = true) l -> finite x = true ->
+  Sorted ltk (set_impl l) /\
+  set_member_impl x (set_impl l) = Some (existsb (fun y => eq_impl y x) l).
+Check C09_set_member_complete :
+  forall x l, finite x = true -> Forall (fun y => finite y = true) l -> Sorted ltk l ->
+  set_member_impl x l = Some (existsb (fun y => eq_spec y x) l).
 Check C09_bitwise_spec :
   forall f a b, finite a = true -> finite b = true -> bitop_impl f a b = bitop_spec f a b.
 Check C09_safe_integer_value :
@@ -66,17 +63,9 @@ Check C09_shift_guard_refuted :
   exists a b, finite a = true /\ finite b = true /\
   enc_num (shl_impl a b) = 0 /\ shl_spec a b = None /\ known_shl_neg a b = true.
 Check C09_shr_spec :
-  forall a b, finite a = true -> finite b = true ->
-  known_shr_count a b = false -> shr_impl a b = shr_spec a b.
-Check C09_shr_count_refuted :
-  shr_count_checked = false -> exists a b, finite a = true /\ finite b = true /\
-  enc_num (shr_impl a b) = 4607182418800017408 /\ shr_spec a b = None /\ known_shr_count a b = true.
+  forall a b, finite a = true -> finite b = true -> shr_impl a b = shr_spec a b.
 Check C09_bitnot_range :
-  forall a, finite a = true -> known_bnot a = false -> bnot_impl a = bnot_spec a.
-Check C09_bitnot_range_refuted :
-  bitnot_checked = false -> exists a, finite a = true /\
-  enc_num (bnot_impl a) = 14114281232179134464 /\ bnot_spec a = None /\ known_bnot a = true.
-
+  forall a, finite a = true -> bnot_impl a = bnot_spec a.
 (** the definitions the statements rest on, pinned by evaluation (bit patterns) *)
 Goal forall opR impl a b, arith_checked opR impl a b =
   (let x := round radix2 (FLT_exp (-1074) 53) ZnearestE (opR (B2R 53 1024 a) (B2R 53 1024 b)) in
@@ -90,6 +79,10 @@ Goal forall p q r, exactly_one p q r =
 Proof. reflexivity. Qed.
 Goal forall a b, lef a b = (le_impl a b = true).
 Proof. reflexivity. Qed.
+Goal forall a b, ltk a b = (B2R 53 1024 a < B2R 53 1024 b)%R.
+Proof. reflexivity. Qed.
+(* the code's equality and the checked operand conversions, as read from the source *)
+Check eq_refl : (num_eq_epsilon, shr_count_checked, bitnot_checked) = (false, true, true).
 Check eq_refl : bits_of_b64 (of_Z max_safe_integer) = bits_of_b64 f_max_safe.
 Check eq_refl : bits_of_b64 (of_Z min_safe_integer) = bits_of_b64 f_min_safe.
 Check eq_refl : bits_of_b64 f_epsilon = 4372995238176751616.   (* 2^-52 *)
